@@ -553,6 +553,23 @@ func decodeMixed(c *Ctx, prop string, class int) {
 		data = gengen.RepeatCR3(o)
 		name = fmt.Sprintf("repeatcr3(%+v)", o)
 		e = harness.EntryByName([]string{"Decode", "DecodeCR3", "PreviewCR3", "isobmff.Reader"}[gen.Intn(4)])
+		// the same blocks, many times, in the other containers (side lane; 0 = the CR3 above)
+		switch y := c.L("gen:y"); y.Intn(4) {
+		case 1:
+			var xmp []byte
+			if y.Bool() {
+				xmp = sampleXMP(y)
+			}
+			n := 1 + y.Intn(40)
+			data = gengen.RepeatJPEG(o, n, xmp)
+			name = fmt.Sprintf("repeatjpeg(n=%d xmp=%d %+v)", n, len(xmp), o)
+			e = harness.EntryByName([]string{"Decode", "DecodeJPEG", "jpeg.ScanJPEG"}[y.Intn(3)])
+		case 2:
+			n := 1 + y.Intn(60)
+			data = gengen.RepeatPNG(o, n)
+			name = fmt.Sprintf("repeatpng(n=%d %+v)", n, o)
+			e = harness.EntryByName([]string{"DecodePng", "png.ScanPngHeader"}[y.Intn(2)])
+		}
 		hi = len(data)
 	} else if class == 6 {
 		// a container's last child cut short by its parent, placed next to a multiple of the
